@@ -875,7 +875,7 @@ pub fn run_zoned(a: &Args, which: &str) {
                 if let Some(pf) = a.opt("plans") {
                     let plans: Vec<Vec<u64>> = serde_json::from_str::<Value>(&std::fs::read_to_string(pf).unwrap()).unwrap().as_array().unwrap().iter()
                         .map(|p| p.as_array().unwrap().iter().map(|x| x.as_u64().unwrap()).collect()).collect();
-                    let per_zone = if quick { 40 } else { plans.len() };
+                    let per_zone = if quick { 40 } else { 2400 };
                     for j in 0..per_zone.min(plans.len()) {
                         // every zone gets a different slice of the plans; all zones together cover all of them several times
                         let plan = &plans[(zi * per_zone + j) % plans.len()];
